@@ -19,7 +19,7 @@ def PC.mw : PC → Option MW
   | .usReLd r _ | .usReCas r _ _ | .usFinLd r _ | .usFinCas r _ _ | .usWakeSt r _ _ | .usWakeV r _ _ => r.mw?
   | .mwLd0 c | .mwEval c | .mwStW c | .mwRcLd c | .mwEnqLd c | .mwEnqCas c _ | .mwRelLd c | .mwRelCas c _ _ | .mwWaitLd c
   | .mwSem c | .mwPdRet c _ | .mwNotify c | .mwLd244 c | .mwLd255 c | .mwRet c _
-  | .mtLd c | .mtCasAcq c _ | .mtCasWW c _ | .mtLdW c _ | .mtLdRc c _ | .mtRmLd c _ | .mtRmCas c _ _ | .mtStW c _ | .mtStRel c _ _ => some c
+  | .mtLd c | .mtCasAcq c _ | .mtCasWW c _ | .mtLdWk c _ | .mtLdW c _ | .mtLdRc c _ | .mtRmLd c _ | .mtRmCas c _ _ | .mtStW c _ | .mtStRel c _ _ => some c
   | _ => none
 
 /-- A recorded timeout implies that the deadline has been reached. -/
